@@ -201,6 +201,9 @@ def verify(
     decoded_message.key = cose_key
 
     if len(verification_key) > 32:
+        if len(decoded_message.signature) != 64:
+            # crypto_sign_open(signature + message) would re-split the bytes at offset 64
+            raise ValueError("Invalid signature length")
         vk = BIP32ED25519PublicKey(
             public_key=verification_key[:32], chain_code=verification_key[32:]
         )
